@@ -618,7 +618,12 @@ class Runner:
                 break
             for case, po, res in results:
                 f2 = self.classify(fam, case, po, res)
-                if f2 is not None and f2.kind == cur.kind:
+                # a smaller case must fail in the same way: same comparison, same agreement with the Impl model
+                # (a) and same side of the partial hypothesis (p) — otherwise a new defect could be shrunk
+                # into a listed known finding and be suppressed
+                if f2 is not None and f2.kind == cur.kind and \
+                        f2.signature.get("a") == cur.signature.get("a") and \
+                        f2.signature.get("inP") == cur.signature.get("inP"):
                     cur = f2
                     improved = True
                     break
